@@ -62,6 +62,13 @@ CLAIMED = {
          'Trusted: Lean kernel, Mathlib, the recording wrappers; rtree/pickle behaviour and termination of the rejection loop are outside the model.',
          'Lean 4 invariant proofs over an oracle-trace state machine + trace-replay correspondence with the real planner',
          'DESIGN.md section 5 C16'),
+ 'C14': ('Machine-checked soundness theorem (Lean 4) of a syntactic alias/mutation analysis over a heap model: for every heap, every placement and aliasing of operand arrays and every computed content, '
+         'an operation whose transcribed program passes the analysis leaves all pre-existing arrays unchanged and returns only storage it allocated itself; the whole scope table is decided by kernel evaluation. '
+         'The transcription is tied to the code by observing, for every operation, byte fingerprints of operands and shared memory / write-through of results on the real objects and comparing with the model\'s prediction; '
+         'default-constructor histories and the 47 MR functions are observed directly.',
+         'Trusted: Lean kernel, the hand transcription of source lines into heap programs (checked only by the correspondence run), the harness\'s enumeration of reachable arrays. Arm constructor clause pending C05.',
+         'Lean 4 soundness proof of an alias analysis (all heaps) + decide over the operation table + alias-graph correspondence on real objects',
+         'DESIGN.md section 5 C14'),
 }
 NA_REASON = 'check not built yet in this round (work in progress; DESIGN.md section 8 gives the build order)'
 
